@@ -95,6 +95,22 @@ CLAIMS["C15"] = dict(
     note=COMMON_NOTE + " PARTIAL: that two distinct Rust references do not alias is modelled as distinct bucket indices; the pointer-level argument (Bucket::ptr distinct per bucket, also for zero-sized T) is checked by the harness on addresses, not proved.",
     technique="machine-checked proof in Coq + bit-exact correspondence + address comparison in the harness")
 
+# ---- companions added later (Properties/Cxx<letter>.v are part of the property's cone) ----
+CLAIMS["C03"]["text"] += (" Properties/C03o.v (Model/OwnIter.v): the OWNING iterators as step-wise objects -- into_iter / drain created, advanced n times, then dropped, "
+    "leaked (mem::forget) or unwound by a panicking fold / for_each consumer: the yielded elements are the first n occupants in bucket order, every other occupant is dropped exactly once "
+    "in bucket order, the block is released exactly once (into_iter) or kept (drain: the table afterwards is clear_no_drop of the original), a leaked Drain leaves the valid empty singleton, "
+    "a leaked IntoIter drops and frees nothing; the step-wise drain equals the one-shot model used by C10; level C compares these runs (yielded list, destructor and release events in order, collection afterwards) with the implementation.")
+CLAIMS["C03"]["note"] = CLAIMS["C03"]["note"].replace("PARTIAL:", "PARTIAL (narrowed by C03o):")
+CLAIMS["C02"]["text"] += (" Properties/C02o (in C03o.v): after a Drain has been leaked the collection is the valid empty singleton (SafeWF, owns no block, nothing dropped or freed later on its behalf); a leaked IntoIter drops nothing.")
+CLAIMS["C04"]["text"] += (" Properties/C04p.v (Model/PanicOps.v): a panicking Eq inside find / find_or_find_insert_slot propagates without reaching any checked precondition and leaves the table exactly as the preceding reserve left it; "
+    "a panicking retain closure leaves a valid table (SafeWF and WF) whose contents are: elements visited before the panic and kept (value updated), minus those rejected (each dropped once, in order), plus the panicking element and all unvisited ones untouched; "
+    "a panicking extract_if closure leaves a valid table holding everything not yielded, the culprit included. Level C runs these models against the implementation with the k-th closure call panicking.")
+CLAIMS["C04"]["note"] = COMMON_NOTE + " PARTIAL: the theorems cover panics of the hasher, of destructors, of Clone, of Eq (at the level of the two search functions every operation uses) and of the retain / extract_if closures; panics of entry closures, of Into conversions and of extend iterators are decided by the fault-injection correspondence, the registry and wf_check on generated histories."
+CLAIMS["C08"]["text"] += (" Properties/C08.v also states the last clause of the property: after shrink_to(m) the table has at most the bucket count (and at most the allocation size) of a fresh with_capacity(max(len, m)) (Proofs/ShrinkBound.v).")
+CLAIMS["C14"]["text"] += (" Properties/C14e.v (Model/Entry2.v): RawTable::insert_no_grow, HashMap::rustc_entry with its actions, raw_entry_mut().from_key / from_key_hashed_nocheck with their actions and raw_entry().from_key are transcribed as their own model code and PROVED equal, as values (table, output, event list), to the HashMap::entry composition -- rustc_entry(k) = the entry operation when k is present, reserve(1) followed by the entry operation when it is absent (also at growth_left = 0), insert_no_grow = RawTable::insert whenever its precondition holds -- hence they refine the reference map; level C runs this code-shaped model against the implementation.")
+CLAIMS["C14"]["note"] = COMMON_NOTE + " entry_ref differs from entry only in how the stored key object is built (From<&Q>) and is compared as the entry operation; raw_entry().from_key equals get_key_value except that it hashes on an empty map (side condition shown necessary by Entry2Facts.raw_get_counterexample)."
+CLAIMS["C18"]["text"] += (" Properties/C18o.v (Proofs/SpecDeterminism.v): the first sentence of the property as a theorem -- two runs of one history from HashMap::new() on the two scanners (indeed on any two back-ends satisfying BackendSpec, with different element layouts, total hash functions and allocator behaviour) agree on every return value (yielded lists up to order), on len() and on the contents, for every history whose operations have order-free results; for partly consumed drains / extract_if the yielded lists are sub-multisets of equal contents; capacity / allocation_size / try_reserve verdicts are layout-level and not claimed equal.")
+
 REASON_PENDING = "check under construction in this round (model/theorems exist or are being written; not yet registered)"
 
 def main():
